@@ -245,7 +245,7 @@ PROPS["C06"] = dict(
     assumptions=COMMON_ASSUMPTIONS + ["BinaryHeap is excluded: its iteration order legitimately depends on history and the property does not list it"],
     required=[("deque_types_with_wrapped_states", 17), ("holder_sequence_cases", 5000), ("deque_layout_signatures", 500), ("map_permutations", 800), ("map_histories", 50),
               ("list_histories", 100), ("bit_offset_length_cases", 10000), ("bit_histories", 500), ("holder_cases", 2000), ("vec_histories", 500), ("string_histories", 100)],
-    stages=lambda tier: [native()] + ([miri(values=6)] if tier == "thorough" else []),
+    stages=lambda tier: [native()] + ([miri(shards=32, values=4)] if tier == "thorough" else []),
 )
 
 PROPS["C13"] = dict(
